@@ -202,7 +202,11 @@ func (ex *Exec) modifiesComps(fc *FuncContract, fn *ssa.Function) []string {
 	} else if fc.sig != nil {
 		for i := 0; i < fc.sig.Params().Len(); i++ {
 			p := fc.sig.Params().At(i)
-			se.names[p.Name()] = specBinding{Sym("scan!"+p.Name(), ex.vc.SortOf(p.Type())), p.Type()}
+			b := specBinding{Sym(fmt.Sprintf("scan!arg%d", i), ex.vc.SortOf(p.Type())), p.Type()}
+			if p.Name() != "" && p.Name() != "_" {
+				se.names[p.Name()] = b
+			}
+			se.names[fmt.Sprintf("arg%d", i)] = b
 		}
 		if fc.recvT != nil {
 			se.names["self"] = specBinding{Sym("scan!self", SInt), fc.recvT}
